@@ -14,6 +14,7 @@ import GeoProofs.Lemmas.C05Area
 import GeoProofs.Lemmas.C05Winding
 import GeoProofs.Lemmas.C05PConvex
 import GeoProofs.Lemmas.C05PRotate
+import GeoProofs.Lemmas.C05PFloat
 import Mathlib.Tactic.NormNum
 
 namespace Geo.Proofs.C05
@@ -782,11 +783,17 @@ theorem pentagram_fan_counterexample :
     let v3 : Pt := ⟨-10, 3⟩; let v4 : Pt := ⟨6, -8⟩
     (0 < cross v0 v1 v2 ∧ 0 < cross v1 v2 v3 ∧ 0 < cross v2 v3 v4 ∧ 0 < cross v3 v4 v0 ∧
       0 < cross v4 v0 v1) ∧ cross v3 v0 v1 < 0 ∧
-      windingOrder [v0, v1, v2, v3, v4, v0] = some .ccw ∧ 0 < twiceSignedRingArea [v0, v1, v2, v3, v4, v0] := by
+      windingOrder [v0, v1, v2, v3, v4, v0] = some .ccw ∧ 0 < twiceSignedRingArea [v0, v1, v2, v3, v4, v0] ∧
+      ¬ convexRing [v0, v1, v2, v3, v4, v0] := by
   intro v0 v1 v2 v3 v4
-  refine ⟨by norm_num [cross, v0, v1, v2, v3, v4], by norm_num [cross, v0, v1, v3], by decide +kernel, ?_⟩
-  rw [twice_eq_shoelace _ (by decide)]
-  norm_num [shoelace2, det, v0, v1, v2, v3, v4]
+  refine ⟨by norm_num [cross, v0, v1, v2, v3, v4], by norm_num [cross, v0, v1, v3], by decide +kernel, ?_, ?_⟩
+  · rw [twice_eq_shoelace _ (by decide)]
+    norm_num [shoelace2, det, v0, v1, v2, v3, v4]
+  · rintro (h | h)
+    · have := h (v0, v1) (by simp [edges]) v3 (by simp)
+      norm_num [cross, v0, v1, v3] at this
+    · have := h (v0, v1) (by simp [edges]) v2 (by simp)
+      norm_num [cross, v0, v1, v2] at this
 
 /-! ### orient -/
 
@@ -1081,5 +1088,109 @@ theorem convexRing_rect (mn mx : Pt) : convexRing (rectToPoly mn mx).ext := by
 example : orientPoly .default (orientPoly .default (rectToPoly ⟨0, 0⟩ ⟨3, 2⟩)) =
     orientPoly .default (rectToPoly ⟨0, 0⟩ ⟨3, 2⟩) :=
   orient_idem_convex _ _ (by decide) (by decide) (convexRing_rect _ _) (by simp [rectToPoly])
+
+/-- closes `cross … = cross …` / `cross … = 0` identities -/
+local macro "cross_ring" : tactic => `(tactic| first | rfl | (simp only [cross]; ring1))
+
+/-- [T] a quadrilateral ring whose four turns have the same sign is convex: with four vertices every
+(edge, vertex) pair is a consecutive triple. (From five vertices on this fails: pentagram.) -/
+theorem convexRing_quad (a b c d : Pt)
+    (h : (0 ≤ cross a b c ∧ 0 ≤ cross b c d ∧ 0 ≤ cross c d a ∧ 0 ≤ cross d a b) ∨
+      (cross a b c ≤ 0 ∧ cross b c d ≤ 0 ∧ cross c d a ≤ 0 ∧ cross d a b ≤ 0)) :
+    convexRing [a, b, c, d, a] := by
+  have key : ∀ e ∈ edges [a, b, c, d, a], ∀ q ∈ [a, b, c, d, a],
+      cross e.1 e.2 q = 0 ∨ cross e.1 e.2 q = cross a b c ∨ cross e.1 e.2 q = cross b c d ∨
+        cross e.1 e.2 q = cross c d a ∨ cross e.1 e.2 q = cross d a b := by
+    intro e he q hq
+    simp only [edges, List.tail_cons, List.zip_cons_cons, List.zip_nil_right, List.mem_cons,
+      List.not_mem_nil, or_false] at he hq
+    rcases he with rfl | rfl | rfl | rfl <;> rcases hq with rfl | rfl | rfl | rfl | rfl <;>
+      (first
+        | (left; cross_ring)
+        | (right; left; cross_ring)
+        | (right; right; left; cross_ring)
+        | (right; right; right; left; cross_ring)
+        | (right; right; right; right; cross_ring))
+  rcases h with ⟨h1, h2, h3, h4⟩ | ⟨h1, h2, h3, h4⟩
+  · left
+    intro e he q hq
+    rcases key e he q hq with h' | h' | h' | h' | h' <;> rw [h'] <;> assumption
+  · right
+    intro e he q hq
+    rcases key e he q hq with h' | h' | h' | h' | h' <;> rw [h'] <;> assumption
+
+example : convexRing [⟨0, 0⟩, ⟨4, 1⟩, ⟨5, 5⟩, ⟨1, 3⟩, ⟨0, 0⟩] :=
+  convexRing_quad _ _ _ _ (Or.inl (by norm_num [cross]))
+
+/-! ### T3: rounding-error bound for `twice_signed_ring_area` under the standard model
+
+`fl : Rat → Rat` is an arbitrary rounding function with `|fl x − x| ≤ u·|x|` for all `x`
+(`RoundsWithin fl u`; binary64 round-to-nearest: `u = 2^-53`, no underflow/overflow). The computation
+`flTwiceSignedRingArea fl` (GeoProofs/Lemmas/C05PFloat.lean) applies `fl` after every subtraction of
+the shift, every product, every determinant subtraction and every accumulation; with `fl = id` it is
+the model (`flTwice_id`).
+
+The bound is in terms of the magnitudes of the two *products* of each shifted determinant,
+`|aᵢ.x−s.x|·|aᵢ₊₁.y−s.y| + |aᵢ.y−s.y|·|aᵢ₊₁.x−s.x|` — not of `|detᵢ|` as written in DESIGN §7: a
+determinant of two nearly parallel shifted vectors is small while the rounding errors of its
+products are not, so no bound proportional to `Σ|detᵢ|` holds. Each product magnitude is at most
+`D²` (`D` the bounding-box diagonal), which is how the shift makes the error independent of the
+distance from the origin. (`flSum_error` below is the `Σ|dᵢ|` form for the summation alone.) -/
+
+/-- [T] T3: `|fl_area − area| ≤ ((1+u)^(n+3) − 1)·Σ|products|`, `n` the number of coordinates. -/
+theorem area_rounding_error {fl : Rat → Rat} {u : Rat} (hu : 0 ≤ u) (hfl : RoundsWithin fl u)
+    (s : Pt) (t : List Pt) :
+    |flTwiceSignedRingArea fl (s :: t) - twiceSignedRingArea (s :: t)| ≤
+      ((1 + u) ^ ((s :: t).length + 3) - 1) * sumRat (detMags s (s :: t)) :=
+  flTwice_error hu hfl s t
+
+/-- [T] T3 with the explicit constant `γ = (n+3)u / (1 − (n+3)u)`. -/
+theorem area_rounding_error_gamma {fl : Rat → Rat} {u : Rat} (hu : 0 ≤ u) (hfl : RoundsWithin fl u)
+    (s : Pt) (t : List Pt) (hk : (((s :: t).length + 3 : Nat) : Rat) * u < 1) :
+    |flTwiceSignedRingArea fl (s :: t) - twiceSignedRingArea (s :: t)| ≤
+      ((((s :: t).length + 3 : Nat) : Rat) * u / (1 - (((s :: t).length + 3 : Nat) : Rat) * u)) *
+        sumRat (detMags s (s :: t)) :=
+  flTwice_error_gamma hu hfl s t hk
+
+example : |flTwiceSignedRingArea (fun x => x * (1 + 1 / 1024))
+      [⟨100, 100⟩, ⟨104, 100⟩, ⟨104, 103⟩, ⟨100, 100⟩] -
+    twiceSignedRingArea [⟨100, 100⟩, ⟨104, 100⟩, ⟨104, 103⟩, ⟨100, 100⟩]| ≤
+    (((4 + 3 : Nat) : Rat) * (1 / 1024) / (1 - ((4 + 3 : Nat) : Rat) * (1 / 1024))) *
+      sumRat (detMags ⟨100, 100⟩ [⟨100, 100⟩, ⟨104, 100⟩, ⟨104, 103⟩, ⟨100, 100⟩]) :=
+  area_rounding_error_gamma (by norm_num) (by
+    intro x
+    have : x * (1 + 1 / 1024) - x = 1 / 1024 * x := by ring
+    simp only [this, abs_mul]
+    norm_num) ⟨100, 100⟩ [⟨104, 100⟩, ⟨104, 103⟩, ⟨100, 100⟩] (by norm_num)
+
+/-- [T] the accumulation loop alone, for any values `ds`:
+`|fl_sum − Σ ds| ≤ ((1+u)^n − 1)·Σ|dᵢ|`. -/
+theorem sum_rounding_error {fl : Rat → Rat} {u : Rat} (hu : 0 ≤ u) (hfl : RoundsWithin fl u)
+    (ds : List Rat) :
+    |flSum fl 0 ds - sumRat ds| ≤ ((1 + u) ^ ds.length - 1) * sumRat (ds.map (fun d => |d|)) :=
+  flSum_error hu hfl ds
+
+/-- a rounding function that is not the identity: always 2^-10 too large in magnitude -/
+example : RoundsWithin (fun x => x * (1 + 1 / 1024)) (1 / 1024) := by
+  intro x
+  have : x * (1 + 1 / 1024) - x = 1 / 1024 * x := by ring
+  simp only [this, abs_mul]
+  norm_num
+
+example : |flTwiceSignedRingArea (fun x => x * (1 + 1 / 1024))
+      [⟨100, 100⟩, ⟨104, 100⟩, ⟨104, 103⟩, ⟨100, 100⟩] - 12| ≤
+    ((1 + 1 / 1024) ^ 7 - 1) * 12 := by
+  have hfl : RoundsWithin (fun x => x * (1 + 1 / 1024)) (1 / 1024) := by
+    intro x
+    have : x * (1 + 1 / 1024) - x = 1 / 1024 * x := by ring
+    simp only [this, abs_mul]
+    norm_num
+  have h := area_rounding_error (by norm_num) hfl ⟨100, 100⟩ [⟨104, 100⟩, ⟨104, 103⟩, ⟨100, 100⟩]
+  have e1 : twiceSignedRingArea [⟨100, 100⟩, ⟨104, 100⟩, ⟨104, 103⟩, ⟨100, 100⟩] = 12 := by
+    rw [twice_eq_shoelace _ (by decide)]; norm_num [shoelace2, det]
+  have e2 : sumRat (detMags ⟨100, 100⟩ [⟨100, 100⟩, ⟨104, 100⟩, ⟨104, 103⟩, ⟨100, 100⟩]) = 12 := by
+    norm_num [detMags, sumRat]
+  rw [e1, e2] at h
+  exact h
 
 end Geo.Proofs.C05
